@@ -628,7 +628,8 @@ class MinMaxAggregator:
                 oldmax = cond
             else:
                 rest_cond.append(cond)
-        assert oldmax is not None
+        if oldmax is None:  # the result only occurs inside a conditional literal or under double negation
+            return [stm]
 
         # check if all Variables from old predicate are used in the tuple identifier
         # to make a unique semantics
@@ -693,11 +694,12 @@ class MinMaxAggregator:
         new list of elements
         """
         term_tuple = elem.terms
+        if not term_tuple:
+            return [elem]
         # split condition into the max predicate + translation and the rest
         old_max, minmaxpred, rest_cond = self._split_element(term_tuple[0].location, elem, rest_elems)
-        if minmaxpred is None:
+        if minmaxpred is None or old_max is None:
             return [elem]
-        assert old_max is not None
 
         if term_tuple[0].ast_type == ASTType.Variable:
             varname = term_tuple[0].name
